@@ -98,6 +98,12 @@ class OpsGen:
                     out.append(Op("array-fill", path, mem, "{ auto a = %s; a.fill(static_cast<typename decltype(a)::value_type>(0x42)); }" % acc, "leaf"))
                     out.append(Op("array-index", path, mem, "{ auto a = %s; if(a.size()) vrt::sink(a[a.size() - 1]); }" % acc, "leaf"))
                     out.append(Op("array-iterate", path, mem, "{ auto a = %s; unsigned s = 0; for(auto x : a) s += static_cast<unsigned char>(x); vrt::sink(s); }" % acc, "leaf"))
+                    # the byte-typed view derived from the array view
+                    out.append(Op("array-raw-read", path, mem, "vrt::sink(vrt::txt(%s.raw()));" % acc, "leaf"))
+                    out.append(Op("array-raw-index", path, mem, "{ auto r = %s.raw(); if(r.size()) { vrt::sink(r[r.size() - 1]); vrt::sink(r.front()); vrt::sink(r.back()); } }" % acc, "leaf"))
+                    out.append(Op("array-raw-iterate", path, mem, "{ auto r = %s.raw(); unsigned s = 0; for(auto x : r) s += static_cast<unsigned char>(x); vrt::sink(s); }" % acc, "leaf"))
+                    out.append(Op("array-raw-fill", path, mem, "{ auto r = %s.raw(); r.fill(static_cast<typename decltype(r)::value_type>(0x47)); }" % acc, "leaf"))
+                    out.append(Op("array-raw-strlen", path, mem, "{ auto r = %s.raw(); vrt::sink(r.strlen()); vrt::sink(r.strlen_r()); }" % acc, "leaf"))
                     if kind.endswith(":char"):
                         out.append(Op("array-strlen", path, mem, "vrt::sink(%s.strlen());" % acc, "leaf"))
                         out.append(Op("array-strlen_r", path, mem, "vrt::sink(%s.strlen_r());" % acc, "leaf"))
@@ -122,6 +128,12 @@ class OpsGen:
                           "{ sbepp::cursor<char> c; auto g = l.%s(sbepp::cursor_ops::init(c)); std::size_t k = 0; "
                           "vrt::rec_visitor<char> v{-1, nullptr}; v.entry_counters.push_back(0); "
                           "for(const auto e : g.cursor_range(c)) { (void)e; sbepp::visit_children(e, c, v); ++k; } vrt::sink(k); vrt::out().clear(); }" % g.name, "group"))
+            if read_first:
+                arrow = read_first.replace("e.", "it->")
+                out.append(Op("group-iterator-arrow", path, mem, "{ auto g = %s; auto it = g.begin(); if(it != g.end()) { %s auto e = *it; %s } }"
+                              % (acc, arrow, read_first), "group", needs_nonempty=True))
+                out.append(Op("group-get_by_tag-entry-field", path, mem,
+                              "{ auto g = sbepp::get_by_tag<typename LT::%s>(l); for(const auto e : g) { %s break; } }" % (g.name, read_first), "group"))
             # blind writers: nothing is read from the group's own header first
             out.append(Op("group-fill-header-blind", path, mem, "{ auto g = %s; sbepp::fill_group_header(g, 0); }" % acc, "group-header"))
             out.append(Op("group-resize-blind", path, mem, "{ auto g = %s; g.resize(0); }" % acc, "group-header"))
@@ -158,6 +170,10 @@ class OpsGen:
                           "{ auto d = %s; std::vector<unsigned char> b(d.size(), 0x43); d.assign_range(b); }" % acc, "data"))
             out.append(Op("data-assign-count-same", path, mem, "{ auto d = %s; d.assign(d.size(), static_cast<%s>(0x44)); }" % (acc, vt), "data"))
             out.append(Op("data-cursor-init", path, mem, "{ sbepp::cursor<char> c; vrt::sink(l.%s(sbepp::cursor_ops::init(c)).size()); }" % d.name, "data-prefix"))
+            out.append(Op("data-raw-read", path, mem, "vrt::sink(vrt::txt(%s.raw()));" % acc, "data"))
+            out.append(Op("data-raw-iterate", path, mem, "{ auto r = %s.raw(); unsigned s = 0; for(auto x : r) s += static_cast<unsigned char>(x); vrt::sink(s); }" % acc, "data"))
+            out.append(Op("data-raw-front-back", path, mem, "{ auto r = %s.raw(); if(!r.empty()) { vrt::sink(r.front()); vrt::sink(r.back()); vrt::sink(r[0]); } }" % acc, "data"))
+            out.append(Op("data-raw-push_back", path, mem, "{ auto r = %s.raw(); if(r.size() < r.max_size()) r.push_back(static_cast<typename decltype(r)::value_type>(0x48)); }" % acc, "data+1"))
             out.append(Op("data-resize-3-blind", path, mem, "{ auto d = %s; d.resize(3); }" % acc, "data-prefix+3"))
             out.append(Op("data-assign-3-blind", path, mem, "{ auto d = %s; d.assign(3, static_cast<%s>(0x45)); }" % (acc, vt), "data-prefix+3"))
             out.append(Op("data-assign_range-3-blind", path, mem,
